@@ -103,6 +103,9 @@ pub fn gen_ratio(rng: &mut Rng, sw: &Swarm) -> Op {
     let t = if rng.chance(3, 5) { "r" } else { "x" };
     let (a, b, d) = (slot(rng), slot(rng), slot(rng));
     let nm = |s: &str| format!("{}.{}", t, s);
+    if sw.big && !cfg!(miri) && rng.chance(1, 40) {
+        return Op::new("rbig.reduce").a(a).b(b).c(slot(rng)).n(rng.below(10) as i64).m(rng.below(1 << 20) as i64).form(rng.below(3));
+    }
     match rng.below(40) {
         0..=5 => {
             let bits = small_bits(rng, sw);
@@ -115,7 +118,7 @@ pub fn gen_ratio(rng: &mut Rng, sw: &Swarm) -> Op {
         }
         6 => {
             if t == "r" && rng.chance(1, 3) {
-                Op::new("r.static").dst(d).n(rng.below(6) as i64).form(rng.below(3))
+                Op::new("r.static").dst(d).n(rng.below(9) as i64).form(rng.below(3))
             } else {
                 Op::new(&nm("fromparts")).a(a).b(b).dst(d).form(rng.below(2))
             }
@@ -142,7 +145,7 @@ pub fn gen_ratio(rng: &mut Rng, sw: &Swarm) -> Op {
         26 => Op::new(&nm("intoparts")).a(a).dst(d).form(form(rng)),
         27 => Op::new(&nm("diveuclid")).a(a).b(b).dst(d).form(rng.below(3)),
         28 => Op::new(&nm("tofloat")).a(a).dst(d).n(rng.below(200) as i64).form(rng.below(2)),
-        29 => Op::new(&nm("fromfloat")).a(a).dst(d),
+        29 => Op::new(&nm("fromfloat")).a(a).dst(d).form(rng.below(2)),
         30 => Op::new(&nm("tof64")).a(a),
         31 => Op::new(&nm("str")).a(a).dst(d).n(rng.below(35) as i64).form(rng.below(2)),
         32 => match rng.below(2) {
